@@ -351,7 +351,7 @@ func TestC20(t *testing.T) {
 			for k := 1; k <= calls; k++ {
 				rep.Eval(1)
 				rep.Count("write_fault_positions", 1)
-				fw := &recWriter{failAt: k, err: errors.New("disk full")}
+				fw := &recWriter{failAt: k, err: errors.New("disk full"), failMode: k % 3}
 				w2 := &tlog.Writer{ByteWriter: fw, DialectRW: g.drw()}
 				_ = w2.Initialize()
 				reported := false
@@ -368,7 +368,7 @@ func TestC20(t *testing.T) {
 				if !reported {
 					rep.Violation("what=werr@k", "a transport write error was not reported to the caller", map[string]interface{}{"k": k, "calls": calls})
 				}
-				if got := fw.all(); !bytes.HasPrefix(image, got) {
+				if got := fw.all(); !bytes.HasPrefix(image, got) && fw.failMode != 1 {
 					rep.Violation("what=werr@k", "bytes accepted before a write error are not a prefix of the reference image", map[string]interface{}{"k": k})
 				}
 			}
